@@ -17,6 +17,7 @@ import (
 	"verif/mc/evalpha"
 	"verif/mc/evgen"
 	"verif/mc/harness"
+	"verif/mc/poison"
 	"verif/mc/ref/refevent"
 	"verif/mc/ref/refjson"
 	"verif/mc/ref/refredact"
@@ -181,6 +182,7 @@ func persistable(err error) bool {
 }
 
 func runCase(r *harness.Run, c c04Case) error {
+	poison.Redaction(c.Version)
 	r.Eval()
 	row := refversions.Get(c.Version)
 	ver := gmsl.MustGetRoomVersion(gmsl.RoomVersion(c.Version))
